@@ -1100,6 +1100,11 @@ mod convert {
         /// If this state occurred after a `SetAddress`, `self.address` is still the
         /// address that was set.
         ConvertRow,
+        /// Return the end of the sequence for `self.from_row`.
+        ///
+        /// This state occurs when a `DW_LNE_set_address` was directly followed by
+        /// `DW_LNE_end_sequence`. `self.address` is still the address that was set.
+        EndSequence,
     }
 
     /// The state for the conversion of a line number program.
@@ -1357,6 +1362,10 @@ mod convert {
                     self.state = ConvertLineState::ReadRow;
                     return Ok(Some(ConvertLineRow::Row(self.convert_row()?)));
                 }
+                ConvertLineState::EndSequence => {
+                    self.state = ConvertLineState::ReadRow;
+                    return Ok(Some(ConvertLineRow::EndSequence(self.from_row.address())));
+                }
             }
             let mut tombstone = false;
             self.address = None;
@@ -1408,6 +1417,11 @@ mod convert {
                     continue;
                 }
                 if self.from_row.end_sequence() {
+                    if let Some(address) = self.address {
+                        // The address of the end of the sequence was set directly.
+                        self.state = ConvertLineState::EndSequence;
+                        return Ok(Some(ConvertLineRow::SetAddress(address)));
+                    }
                     return Ok(Some(ConvertLineRow::EndSequence(self.from_row.address())));
                 }
                 if let Some(address) = self.address.take() {
@@ -1487,13 +1501,18 @@ mod convert {
                     rows.push(self.convert_row()?);
                     self.state = ConvertLineState::ReadRow;
                 }
+                ConvertLineState::EndSequence => {
+                    start = self.address;
+                }
             }
             while let Some(row) = self.read_row()? {
                 match row {
                     ConvertLineRow::SetAddress(address) => {
                         if !rows.is_empty() {
                             self.address = Some(address);
-                            self.state = ConvertLineState::SetAddress;
+                            if !matches!(self.state, ConvertLineState::EndSequence) {
+                                self.state = ConvertLineState::SetAddress;
+                            }
                             return Ok(Some(ConvertLineSequence {
                                 start,
                                 end: ConvertLineSequenceEnd::Address(address),
